@@ -1,44 +1,554 @@
 package main
 
 import (
+	"encoding/json"
+	"flag"
 	"fmt"
-	"os"
 	"go/types"
+	"os"
+	"path/filepath"
+	"sort"
+	"strconv"
+	"strings"
+	"time"
 
 	"golang.org/x/tools/go/packages"
 	"golang.org/x/tools/go/ssa"
 	"golang.org/x/tools/go/ssa/ssautil"
 )
 
-func main() {
-	cfg := &packages.Config{Mode: packages.LoadSyntax, Dir: "/repo", BuildFlags: []string{"-tags=verif"}}
-	pkgs, err := packages.Load(cfg, os.Args[1])
+const repoDir = "/repo"
+const verifDir = "/verif"
+
+type Spec struct {
+	ID        string   `json:"id"`
+	Packages  []string `json:"packages"`
+	Functions []string `json:"functions"` // "<pkg rel path>#<Recv.Name|Name>"
+	Lemmas    []string `json:"lemmas"`
+	Level     string   `json:"level"`
+	Unclaimed []string `json:"unclaimed"` // obligation names knowingly not discharged (reported as undecided, never as violations)
+	Bounded   []BoundedSpec `json:"bounded"`
+	MetaLemmas []string `json:"meta_lemmas"`
+	Explanation string `json:"explanation"`
+}
+
+type BoundedSpec struct {
+	Name    string `json:"name"`
+	Pkg     string `json:"pkg"`     // package dir relative to /repo
+	File    string `json:"file"`    // overlay test file under /verif/rac
+	Run     string `json:"run"`     // -run regexp
+	Bound   string `json:"bound"`   // human-readable bound
+	StandsFor string `json:"stands_for"`
+}
+
+func loadSpec(id string) (*Spec, error) {
+	data, err := os.ReadFile(filepath.Join(verifDir, "specs", id+".json"))
 	if err != nil {
-		panic(err)
+		return nil, err
+	}
+	var s Spec
+	if err := json.Unmarshal(data, &s); err != nil {
+		return nil, fmt.Errorf("spec %s: %v", id, err)
+	}
+	return &s, nil
+}
+
+func loadEngine(pkgPatterns []string, overlay map[string][]byte) (*Engine, map[string]*ssa.Package, error) {
+	os.Setenv("GOFLAGS", "-mod=mod")
+	os.Setenv("GOPROXY", "off")
+	os.Setenv("GOSUMDB", "off")
+	os.Setenv("GOTOOLCHAIN", "local")
+	cfg := &packages.Config{Mode: packages.LoadSyntax, Dir: repoDir, BuildFlags: []string{"-tags=verif"}, Overlay: overlay}
+	pkgs, err := packages.Load(cfg, pkgPatterns...)
+	if err != nil {
+		return nil, nil, err
+	}
+	for _, p := range pkgs {
+		if len(p.Errors) > 0 {
+			return nil, nil, fmt.Errorf("package %s: %v", p.PkgPath, p.Errors[0])
+		}
 	}
 	prog, spkgs := ssautil.Packages(pkgs, ssa.GlobalDebug)
-	_ = prog
-	for _, p := range spkgs {
-		p.Build()
-		for _, m := range p.Members {
-			if f, ok := m.(*ssa.Function); ok && f.Name() == os.Args[2] {
-				f.WriteTo(os.Stdout)
-			}
+	byPath := map[string]*ssa.Package{}
+	for _, sp := range spkgs {
+		if sp != nil {
+			sp.Build()
+			byPath[sp.Pkg.Path()] = sp
 		}
-		if len(os.Args) > 3 {
-			t := p.Type(os.Args[3])
-			ms := prog.MethodSets.MethodSet(t.Type())
-			_ = ms
-			pt := t.Type()
-			for i := 0; i < prog.MethodSets.MethodSet(ptrTo(pt)).Len(); i++ {
-				sel := prog.MethodSets.MethodSet(ptrTo(pt)).At(i)
-				if sel.Obj().Name() == os.Args[2] {
-					prog.MethodValue(sel).WriteTo(os.Stdout)
+	}
+	cs, err := LoadContracts(repoDir)
+	if err != nil {
+		return nil, nil, err
+	}
+	eng := &Engine{prog: prog, fset: prog.Fset, cs: cs, srcCache: map[string][]byte{}, globalsRO: map[*ssa.Global]bool{}, typeTags: map[string]int{}, notes: map[string]bool{}}
+	return eng, byPath, nil
+}
+
+func findFunction(prog *ssa.Program, sp *ssa.Package, key string) *ssa.Function {
+	if i := strings.Index(key, "."); i >= 0 {
+		tn, mn := key[:i], key[i+1:]
+		m := sp.Members[tn]
+		t, ok := m.(*ssa.Type)
+		if !ok {
+			return nil
+		}
+		for _, typ := range []types.Type{types.NewPointer(t.Type()), t.Type()} {
+			ms := prog.MethodSets.MethodSet(typ)
+			for i := 0; i < ms.Len(); i++ {
+				if ms.At(i).Obj().Name() == mn {
+					f := prog.MethodValue(ms.At(i))
+					if f != nil && f.Synthetic == "" {
+						return f
+					}
 				}
 			}
 		}
+		return nil
 	}
-	fmt.Println("done")
+	if f, ok := sp.Members[key].(*ssa.Function); ok {
+		return f
+	}
+	return nil
 }
 
-func ptrTo(t interface{ Underlying() types.Type }) types.Type { return types.NewPointer(t.(types.Type)) }
+type knownFinding struct {
+	prop, obligation, what string
+}
+
+func loadKnownFindings() []knownFinding {
+	data, err := os.ReadFile(filepath.Join(verifDir, "known_findings.txt"))
+	if err != nil {
+		return nil
+	}
+	var out []knownFinding
+	for _, l := range strings.Split(string(data), "\n") {
+		l = strings.TrimSpace(l)
+		if !strings.HasPrefix(l, "finding:") {
+			continue
+		}
+		var kf knownFinding
+		rest := strings.TrimSpace(strings.TrimPrefix(l, "finding:"))
+		for _, f := range strings.Fields(rest) {
+			if strings.HasPrefix(f, "property=") {
+				kf.prop = strings.TrimPrefix(f, "property=")
+			} else if strings.HasPrefix(f, "obligation=") {
+				kf.obligation = strings.TrimPrefix(f, "obligation=")
+			}
+		}
+		if i := strings.Index(rest, " :: "); i >= 0 {
+			kf.what = rest[i+4:]
+		}
+		out = append(out, kf)
+	}
+	return out
+}
+
+func loadBaseline(id string) map[string]bool {
+	data, err := os.ReadFile(filepath.Join(verifDir, "baseline", id+".obligations"))
+	if err != nil {
+		return nil
+	}
+	m := map[string]bool{}
+	for _, l := range strings.Split(string(data), "\n") {
+		l = strings.TrimSpace(l)
+		if l != "" && !strings.HasPrefix(l, "#") {
+			m[l] = true
+		}
+	}
+	return m
+}
+
+type checkResult struct {
+	spec        *Spec
+	results     []*FnResult
+	obligations []*Obligation
+	errors      []string
+	bounded     []boundedResult
+	solverTime  float64
+	wall        float64
+}
+
+func main() {
+	if len(os.Args) < 2 {
+		fmt.Println("usage: govc check|baseline|dump|replay ...")
+		os.Exit(2)
+	}
+	switch os.Args[1] {
+	case "check", "baseline":
+		fs := flag.NewFlagSet("check", flag.ExitOnError)
+		prop := fs.String("prop", "", "property id")
+		tier := fs.String("tier", "", "quick|thorough")
+		verbose := fs.Bool("v", false, "verbose")
+		fs.Parse(os.Args[2:])
+		if *tier == "" {
+			*tier = os.Getenv("VERIF_TIER")
+		}
+		if *tier == "" {
+			*tier = "quick"
+		}
+		os.Exit(cmdCheck(*prop, *tier, os.Args[1] == "baseline", *verbose))
+	case "dump":
+		cmdDump(os.Args[2:])
+	case "replay":
+		os.Exit(cmdReplay(os.Args[2:]))
+	default:
+		fmt.Println("unknown command")
+		os.Exit(2)
+	}
+}
+
+func cmdDump(args []string) {
+	eng, pk, err := loadEngine([]string{args[0]}, nil)
+	if err != nil {
+		fmt.Println("ERROR", err)
+		os.Exit(2)
+	}
+	for _, sp := range pk {
+		if f := findFunction(eng.prog, sp, args[1]); f != nil {
+			f.WriteTo(os.Stdout)
+		}
+	}
+}
+
+func cmdCheck(id, tier string, writeBaseline, verbose bool) int {
+	start := time.Now()
+	seed := 0
+	if s := os.Getenv("VERIF_SEED"); s != "" {
+		seed, _ = strconv.Atoi(s)
+	}
+	spec, err := loadSpec(id)
+	if err != nil {
+		fmt.Println("ERROR", err)
+		return 2
+	}
+	outDir := filepath.Join(verifDir, "out", id)
+	os.RemoveAll(outDir)
+	os.MkdirAll(outDir, 0o755)
+	cr := &checkResult{spec: spec}
+	timeout := 10
+	confirm := false
+	if tier == "thorough" {
+		timeout = 60
+		confirm = true
+	}
+	var eng *Engine
+	if len(spec.Functions) > 0 || len(spec.Lemmas) > 0 {
+		var pk map[string]*ssa.Package
+		eng, pk, err = loadEngine(spec.Packages, nil)
+		if err != nil {
+			fmt.Println("ERROR loading packages:", err)
+			return 2
+		}
+		for _, fkey := range spec.Functions {
+			parts := strings.SplitN(fkey, "#", 2)
+			pkgPath := repoModule + "/" + parts[0]
+			sp := pk[pkgPath]
+			if sp == nil {
+				cr.errors = append(cr.errors, "package not loaded: "+pkgPath)
+				continue
+			}
+			fn := findFunction(eng.prog, sp, parts[1])
+			if fn == nil {
+				cr.errors = append(cr.errors, "function under contract not found: "+fkey)
+				continue
+			}
+			fc := eng.cs.Funcs[pkgPath+"#"+parts[1]]
+			if fc == nil {
+				cr.errors = append(cr.errors, "no contract for "+fkey)
+				continue
+			}
+			if fc.Trusted {
+				cr.results = append(cr.results, &FnResult{Fn: shortFnName(fn), Trusted: true, Query: NewQuery(Mode{})})
+				continue
+			}
+			res := eng.VerifyFunction(fn, fc)
+			cr.results = append(cr.results, res)
+			if res.Unsupported != "" {
+				cr.errors = append(cr.errors, fmt.Sprintf("function %s outside the verifier's subset: %s", fkey, res.Unsupported))
+				continue
+			}
+			dischargeAll(res.Query, filepath.Join(outDir, sanitizeFile(res.Fn)), timeout, confirm, 16)
+			cr.obligations = append(cr.obligations, res.Query.obls...)
+		}
+		for _, lk := range spec.Lemmas {
+			parts := strings.SplitN(lk, "#", 2)
+			lem := eng.cs.Lemmas[repoModule+"/"+parts[0]+"#"+parts[1]]
+			if lem == nil {
+				cr.errors = append(cr.errors, "lemma not found: "+lk)
+				continue
+			}
+			res := eng.VerifyLemma(lem, pk[repoModule+"/"+parts[0]])
+			cr.results = append(cr.results, res)
+			if res.Unsupported != "" {
+				cr.errors = append(cr.errors, fmt.Sprintf("lemma %s: %s", lk, res.Unsupported))
+				continue
+			}
+			dischargeAll(res.Query, filepath.Join(outDir, "lemma_"+sanitizeFile(lem.Name)), timeout, confirm, 16)
+			cr.obligations = append(cr.obligations, res.Query.obls...)
+		}
+	}
+	for _, b := range spec.Bounded {
+		cr.bounded = append(cr.bounded, runBounded(id, b, tier, seed, outDir))
+	}
+	cr.wall = time.Since(start).Seconds()
+	return report(cr, id, tier, seed, outDir, writeBaseline, verbose)
+}
+
+func report(cr *checkResult, id, tier string, seed int, outDir string, writeBaseline, verbose bool) int {
+	spec := cr.spec
+	baseline := loadBaseline(id)
+	known := map[string]knownFinding{}
+	for _, kf := range loadKnownFindings() {
+		if kf.prop == id {
+			known[kf.obligation] = kf
+		}
+	}
+	unclaimed := map[string]bool{}
+	for _, u := range spec.Unclaimed {
+		unclaimed[u] = true
+	}
+	var discharged, failed, undecided, probesBad []*Obligation
+	nProbe := 0
+	for _, o := range cr.obligations {
+		cr.solverTime += o.Time
+		if o.ExpectSat {
+			nProbe++
+			if o.Status != "sat" {
+				// unknown on a probe is tolerated (quantifiers); unsat is a vacuity error
+				if o.Status == "unsat" {
+					probesBad = append(probesBad, o)
+				}
+			}
+			continue
+		}
+		switch {
+		case o.Status == "unsat":
+			discharged = append(discharged, o)
+		case unclaimed[o.Name]:
+			undecided = append(undecided, o)
+		default:
+			failed = append(failed, o)
+		}
+	}
+	if writeBaseline {
+		var names []string
+		for _, o := range discharged {
+			names = append(names, o.Name)
+		}
+		sort.Strings(names)
+		os.MkdirAll(filepath.Join(verifDir, "baseline"), 0o755)
+		os.WriteFile(filepath.Join(verifDir, "baseline", id+".obligations"), []byte(strings.Join(names, "\n")+"\n"), 0o644)
+		fmt.Printf("baseline written: %d obligations\n", len(names))
+	}
+	exit := 0
+	var violations []string
+	var knownHit []string
+	for _, o := range failed {
+		if kf, ok := known[o.Name]; ok {
+			knownHit = append(knownHit, fmt.Sprintf("KNOWN-FINDING: property=%s %s (obligation %s, %s)", id, kf.what, o.Name, o.Status))
+			continue
+		}
+		inBase := baseline == nil || baseline[o.Name]
+		if o.Status == "sat" || inBase {
+			path := writeReplay(id, o, outDir)
+			line := fmt.Sprintf("VIOLATION property=%s replay=%s", id, path.path)
+			if !path.reproduced {
+				line += " no-failing-input-found"
+			}
+			violations = append(violations, line)
+			fmt.Printf("FAILED obligation %s [%s by %s] at %s: %s\n", o.Name, o.Status, o.Solver, o.Pos, o.Detail)
+		} else {
+			undecided = append(undecided, o)
+		}
+	}
+	// known findings that no longer fail are reported (not an error)
+	for name, kf := range known {
+		still := false
+		for _, o := range failed {
+			if o.Name == name {
+				still = true
+			}
+		}
+		if !still {
+			fmt.Printf("NOTE: listed finding no longer fails: %s (%s)\n", name, kf.what)
+		}
+	}
+	// baseline obligations that disappeared => the check is broken (renamed function etc.), not a violation
+	if baseline != nil {
+		seen := map[string]bool{}
+		for _, o := range cr.obligations {
+			seen[o.Name] = true
+		}
+		var missing []string
+		for n := range baseline {
+			if !seen[n] {
+				missing = append(missing, n)
+			}
+		}
+		sort.Strings(missing)
+		if len(missing) > 0 && len(cr.errors) == 0 {
+			// an obligation can legitimately vanish when the code no longer contains the risky operation; report only
+			fmt.Printf("NOTE: %d baseline obligations no longer generated (e.g. %s)\n", len(missing), missing[0])
+		}
+	}
+	for _, b := range cr.bounded {
+		if b.failed {
+			violations = append(violations, fmt.Sprintf("VIOLATION property=%s replay=%s", id, b.replay))
+		}
+		if b.err != "" {
+			cr.errors = append(cr.errors, "bounded "+b.spec.Name+": "+b.err)
+		}
+	}
+	for _, o := range probesBad {
+		cr.errors = append(cr.errors, "vacuity probe failed (contradictory assumptions): "+o.Name)
+	}
+	for _, l := range knownHit {
+		fmt.Println(l)
+	}
+	for _, v := range violations {
+		fmt.Println(v)
+		exit = 1
+	}
+	if len(cr.errors) > 0 {
+		for _, e := range cr.errors {
+			fmt.Println("ERROR", e)
+		}
+		if exit == 0 {
+			exit = 2
+		}
+	}
+	if verbose {
+		for _, o := range cr.obligations {
+			fmt.Printf("  %-8s %-8s %6.2fs %s\n", o.Status, o.Solver, o.Time, o.Name)
+		}
+	}
+	writeEvidence(cr, id, tier, seed, discharged, failed, undecided, nProbe, len(violations), knownHit)
+	fmt.Printf("%s: %d obligations, %d discharged, %d known-finding, %d violations, %d undecided, %d probes; functions %d; wall %.1fs\n",
+		id, len(discharged)+len(failed)+len(undecided)-countDup(failed, undecided), len(discharged), len(knownHit), len(violations), len(undecided), nProbe, len(cr.results), cr.wall)
+	return exit
+}
+
+func countDup(a, b []*Obligation) int {
+	m := map[*Obligation]bool{}
+	for _, x := range a {
+		m[x] = true
+	}
+	n := 0
+	for _, x := range b {
+		if m[x] {
+			n++
+		}
+	}
+	return n
+}
+
+type replayInfo struct {
+	path       string
+	reproduced bool
+}
+
+func writeReplay(id string, o *Obligation, outDir string) replayInfo {
+	p := filepath.Join(outDir, "replay_"+sanitizeFile(o.Name)+".txt")
+	var b strings.Builder
+	fmt.Fprintf(&b, "property: %s\nobligation: %s\nkind: %s\nposition: %s\ndetail: %s\nstatus: %s (solver %s, %.2fs)\nsmt file: %s\n\n--- solver output ---\n%s\n",
+		id, o.Name, o.Kind, o.Pos, o.Detail, o.Status, o.Solver, o.Time, o.File, o.Model)
+	os.WriteFile(p, []byte(b.String()), 0o644)
+	ri := replayInfo{path: p}
+	if o.Status == "sat" {
+		if rp, ok := tryReplay(id, o, outDir); ok {
+			ri.path = rp
+			ri.reproduced = true
+		}
+	}
+	return ri
+}
+
+func writeEvidence(cr *checkResult, id, tier string, seed int, discharged, failed, undecided []*Obligation, nProbe, nViol int, knownHit []string) {
+	level := cr.spec.Level
+	if level == "" {
+		level = "proof"
+	}
+	var fns []string
+	trusted := map[string]bool{}
+	var notes []string
+	for _, r := range cr.results {
+		fns = append(fns, r.Fn+" ["+r.Mode+"]")
+		for _, n := range r.Notes {
+			if !trusted[n] {
+				trusted[n] = true
+				notes = append(notes, n)
+			}
+		}
+	}
+	sort.Strings(notes)
+	per := []map[string]interface{}{}
+	bySolver := map[string]int{}
+	for _, o := range cr.obligations {
+		if o.ExpectSat {
+			continue
+		}
+		per = append(per, map[string]interface{}{"name": o.Name, "status": o.Status, "solver": o.Solver, "time_s": round3(o.Time), "pos": o.Pos})
+		if o.Status == "unsat" {
+			bySolver[o.Solver]++
+		}
+	}
+	var samples []interface{}
+	for i, o := range discharged {
+		if i >= 3 {
+			break
+		}
+		g := o.Goal
+		if len(g) > 400 {
+			g = g[:400] + "..."
+		}
+		samples = append(samples, map[string]interface{}{"obligation": o.Name, "goal_smt": g, "detail": o.Detail, "solver": o.Solver})
+	}
+	if len(samples) == 0 {
+		samples = append(samples, "no SMT obligation in this run")
+	}
+	var und []string
+	for _, o := range undecided {
+		und = append(und, o.Name+" ["+o.Status+"]")
+	}
+	var bnd []interface{}
+	evals := 0
+	for _, b := range cr.bounded {
+		bnd = append(bnd, map[string]interface{}{"name": b.spec.Name, "bound": b.spec.Bound, "stands_for": b.spec.StandsFor, "evaluations": b.evals, "failed": b.failed, "wall_s": round3(b.wall)})
+		evals += b.evals
+	}
+	tb := append([]string{}, notes...)
+	for _, ml := range cr.spec.MetaLemmas {
+		tb = append(tb, "meta-lemma (mathematics, assumed): "+ml)
+	}
+	tb = append(tb, "solvers: z3 4.8.12, z3-new 5.1.0, cvc5 1.0.3 (first definite answer; thorough tier confirms with a second solver)",
+		"govc VC generator (go/ssa -> SMT-LIB): integers modelled exactly modulo 2^n; logging calls dropped")
+	cov := map[string]interface{}{
+		"obligations":              len(discharged) + len(failed) + len(undecided),
+		"discharged":               len(discharged),
+		"checker_cmd":              fmt.Sprintf("/verif/bin/govc check --prop %s --tier %s", id, tier),
+		"trusted_base":             tb,
+		"functions_under_contract": fns,
+		"per_obligation":           per,
+		"discharged_by_solver":     bySolver,
+		"solver_time_s":            round3(cr.solverTime),
+		"undecided":                und,
+		"vacuity_probes":           nProbe,
+		"bounded":                  bnd,
+		"samples":                  samples,
+		"known_findings_hit":       knownHit,
+		"errors":                   cr.errors,
+	}
+	if level != "proof" {
+		cov["explanation"] = cr.spec.Explanation
+		cov["evaluations"] = evals
+	}
+	ev := map[string]interface{}{
+		"property_id": id, "tier": tier, "seed": seed, "level": level, "coverage": cov,
+		"assumptions": tb, "wall_s": round3(cr.wall), "violations": nViol,
+	}
+	os.MkdirAll(filepath.Join(verifDir, "evidence"), 0o755)
+	data, _ := json.MarshalIndent(ev, "", " ")
+	os.WriteFile(filepath.Join(verifDir, "evidence", id+".json"), data, 0o644)
+}
+
+func round3(f float64) float64 { return float64(int(f*1000+0.5)) / 1000 }
